@@ -164,11 +164,12 @@ NewChannel(N, rE) ==
 (* ---------------------------------- solves ------------------------------------------------------ *)
 \* block_diagonalize(H) (every class inherits it), block_diagonalize_no_waterfilling(H) of the plain class,
 \* and the module-level block_diagonalize(H, K, iPu, noise_var)
+BDResult(op, c) == [op |-> op, kind |-> "all", n |-> c.N, mname |-> "None", N |-> c.N, rE |-> c.rE, filt |-> FALSE, onCur |-> TRUE]
 SolveBD(op) ==
   /\ "SolveBD" \in Acts /\ obj # NoObj /\ chan.N > 0
   /\ op = "bd_nowf" => obj.cls = "BD"
   /\ Sweep => (last = NoLast /\ metric = NoMetric)   \* (the interplay with the metric is in the history machine)
-  /\ last' = [op |-> op, kind |-> "all", n |-> chan.N, mname |-> "None", N |-> chan.N, rE |-> chan.rE, filt |-> FALSE, onCur |-> TRUE]
+  /\ last' = BDResult(op, chan)
   /\ UNCHANGED <<obj, metric, alias, chan>>
   /\ Step("SolveBD", [op |-> op], "ok")
 
@@ -199,10 +200,11 @@ SolveExt ==
   /\ Step("SolveExt", <<>>, "ok")
 
 \* calc_whitening_matrices(mu_channel) of the classes that handle external interference
+WhitenResult(c) == [NoLast EXCEPT !.op = "whiten", !.N = c.N, !.rE = c.rE, !.onCur = TRUE]
 CalcWhitening ==
   /\ "CalcWhitening" \in Acts /\ obj.cls \in {"WBD", "EBD"} /\ chan.N > 0 /\ chan.rE > 0
   /\ Sweep => (last = NoLast /\ metric = NoMetric)
-  /\ last' = [NoLast EXCEPT !.op = "whiten", !.N = chan.N, !.rE = chan.rE, !.onCur = TRUE]
+  /\ last' = WhitenResult(chan)
   /\ UNCHANGED <<obj, metric, alias, chan>>
   /\ Step("CalcWhitening", <<>>, "ok")
 
